@@ -381,9 +381,9 @@ def fit_fragment(fragment_atoms, source_atoms, target_atoms):
     quaternion, U, maxsweeps = qtrfit(p_source, q_target, 30)
     # translate source_atoms onto center:
     source_atoms = matrix_minus_vect(source_atoms, pcentroid)
-    # rotate fragment_atoms (instead of source_atoms):
-    rotated_fragment = rotmol(fragment_atoms, U)
-    # move fragment back from zero (be aware that the translation is still wrong!):
+    # rotate fragment_atoms (instead of source_atoms) about the centroid of the source atoms:
+    rotated_fragment = rotmol(matrix_minus_vect(fragment_atoms, pcentroid), U)
+    # move the fragment from zero onto the centroid of the target atoms:
     rotated_fragment = matrix_plus_vect(rotated_fragment, qcentroid)
     rms = rmsd(q_target, p_source)
     return list(rotated_fragment), rms
@@ -393,20 +393,20 @@ def mytest():
     """
     >>> mytest() # DOCTEST: +REPORT_NDIFF +NORMALIZE_WHITESPACE +ELLIPSIS
     Kabsch RMSD:    0.339
-    C0d   1      0.13342089      0.24130563      0.55100894   11.0  0.04
-    C1d   1      0.17619888      0.17902262      0.56452914   11.0  0.04
-    C2d   1      0.08365746      0.12997794      0.52724057   11.0  0.04
-    C3d   1     -0.02665530      0.12466866      0.55597929   11.0  0.04
-    C4d   1      0.13521359      0.07155518      0.52290434   11.0  0.04
-    C5d   1      0.05529952      0.15222482      0.46565980   11.0  0.04
-    C6d   1      0.31578577      0.17095916      0.54271372   11.0  0.04
-    C7d   1      0.38815031      0.22093469      0.56283111   11.0  0.04
-    C8d   1      0.31213535      0.16969488      0.47643097   11.0  0.04
-    C9d   1      0.37186868      0.11694406      0.56569282   11.0  0.04
-    C10d   1      0.17345616      0.17029947      0.64030933   11.0  0.04
-    C11d   1      0.27028472      0.20219330      0.67212698   11.0  0.04
-    C12d   1      0.18465947      0.10785452      0.65628617   11.0  0.04
-    C13d   1      0.06399788      0.19258933      0.66104906   11.0  0.04
+    C0d   1      0.15641558      0.21086972      0.53025647   11.0  0.04
+    C1d   1      0.19919357      0.14858671      0.54377667   11.0  0.04
+    C2d   1      0.10665214      0.09954204      0.50648810   11.0  0.04
+    C3d   1     -0.00366061      0.09423276      0.53522682   11.0  0.04
+    C4d   1      0.15820828      0.04111927      0.50215187   11.0  0.04
+    C5d   1      0.07829421      0.12178891      0.44490733   11.0  0.04
+    C6d   1      0.33878046      0.14052326      0.52196125   11.0  0.04
+    C7d   1      0.41114500      0.19049879      0.54207864   11.0  0.04
+    C8d   1      0.33513004      0.13925898      0.45567850   11.0  0.04
+    C9d   1      0.39486337      0.08650816      0.54494035   11.0  0.04
+    C10d   1      0.19645085      0.13986357      0.61955686   11.0  0.04
+    C11d   1      0.29327940      0.17175740      0.65137451   11.0  0.04
+    C12d   1      0.20765416      0.07741861      0.63553370   11.0  0.04
+    C13d   1      0.08699257      0.16215343      0.64029659   11.0  0.04
 
     """
     cell = [10.5086, 20.9035, 20.5072, 90.0, 94.13, 90.0]
